@@ -204,7 +204,10 @@ func Run(tier string, seed uint64, rep *evidence.Reporter, deadline time.Time) (
 				cur = nil
 			}
 		}
-		const chunk = 1024 // batches per round of workers; the deadline is looked at between rounds
+		chunk := 1024 // batches per round of workers; the deadline is looked at between rounds
+		if fam.Mode == "G" {
+			chunk = 256
+		}
 		fam.Gen(func(s Spec) {
 			if stopped || failed {
 				skipped++
